@@ -151,40 +151,70 @@ Definition is_jbool (j : json) : bool := match j with JBool _ => true | _ => fal
 Definition is_jfloat (j : json) : bool := match j with JFloat _ => true | _ => false end.
 Definition is_pyint (j : json) : bool := match as_pyint j with Some _ => true | None => false end.
 
-(* _default_matches_schema(default, schema) on a PARSED schema *)
-Definition default_matches (d : json) (s : json) : pres bool :=
+(* the primitive rule of _default_matches_schema; a bool never counts as a number *)
+Definition default_matches_prim (d : json) (s : json) : pres bool :=
   match s with
   | JStr t =>
       if String.eqb t "null" then POk (is_jnull d)
       else if String.eqb t "boolean" then POk (is_jbool d)
       else if String.eqb t "string" then POk (is_jstr d)
       else if String.eqb t "bytes" then POk (is_jstr d)
-      else if String.eqb t "double" then maybe_float_is_float d
-      else if String.eqb t "float" then maybe_float_is_float d
-      else if String.eqb t "int" then POk (is_pyint d)
-      else if String.eqb t "long" then POk (is_pyint d)
+      else if String.eqb t "double" then (if is_jbool d then POk false else maybe_float_is_float d)
+      else if String.eqb t "float" then (if is_jbool d then POk false else maybe_float_is_float d)
+      else if String.eqb t "int" then POk (negb (is_jbool d) && is_pyint d)
+      else if String.eqb t "long" then POk (negb (is_jbool d) && is_pyint d)
       else POk true
   | _ => POk true
   end.
 
-(* the stricter test of the dict-form primitive branch (isinstance(default, float)) *)
-Definition default_matches_strict (d : json) (t : string) : bool :=
-  if String.eqb t "null" then is_jnull d
-  else if String.eqb t "boolean" then is_jbool d
-  else if String.eqb t "string" then is_jstr d
-  else if String.eqb t "bytes" then is_jstr d
-  else if String.eqb t "double" then is_jfloat d
-  else if String.eqb t "float" then is_jfloat d
-  else if String.eqb t "int" then is_pyint d
-  else if String.eqb t "long" then is_pyint d
-  else true.
+(* a schema that is not a list: a dict is judged by its "type", anything else by the primitive rule *)
+Definition default_matches_leaf (d : json) (s : json) : pres bool :=
+  match s with
+  | JObj kv =>
+      match jget "type" kv with
+      | None => PErrOther                                     (* KeyError *)
+      | Some ty =>
+          match ty with
+          | JStr t =>
+              if String.eqb t "array" then POk (is_jarr d)
+              else if String.eqb t "map" || String.eqb t "record" || String.eqb t "error" then POk (is_jobj d)
+              else if String.eqb t "enum" || String.eqb t "fixed" then POk (is_jstr d)
+              else default_matches_prim d ty
+          | _ => default_matches_prim d ty
+          end
+      end
+  | _ => default_matches_prim d s
+  end.
 
-(* for s in parsed_schemas: if _default_matches_schema(default, s): break  else: raise *)
-Fixpoint any_match (d : json) (ps : list json) : pres bool :=
+(* _default_matches_schema(default, schema, named_schemas) on a PARSED schema.
+   A by-name reference is judged by its definition in the table (when the table is not empty);
+   a list by any member.  Table values are dicts (what the parser stores); the model answers
+   PErrOther should a reference resolve to a list. *)
+Fixpoint default_matches (tbl : list (string * json)) (d : json) (s : json) : pres bool :=
+  match s with
+  | JArr l =>
+      (fix any (l : list json) : pres bool :=
+         match l with
+         | [] => POk false
+         | x :: r => let+ b := default_matches tbl d x in if b then POk true else any r
+         end) l
+  | JStr x =>
+      if negb (is_prim x) && match tbl with [] => false | _ => true end then
+        match jget x tbl with
+        | Some (JArr _) => PErrOther
+        | Some def => default_matches_leaf d def
+        | None => default_matches_leaf d s
+        end
+      else default_matches_leaf d s
+  | _ => default_matches_leaf d s
+  end.
+
+(* for s in parsed_schemas: if _default_matches_schema(default, s, named_schemas): break  else: raise *)
+Fixpoint any_match (tbl : list (string * json)) (d : json) (ps : list json) : pres bool :=
   match ps with
   | [] => POk false
-  | s :: r => let+ b := default_matches d s in
-              if b then POk true else any_match d r
+  | s :: r => let+ b := default_matches tbl d s in
+              if b then POk true else any_match tbl d r
   end.
 
 (* default is NO_DEFAULT or satisfies the test; otherwise SchemaParseException *)
@@ -376,6 +406,10 @@ Section Open.
   Definition set_tbl (fullname : string) (v : json) (st : pstate) : pstate :=
     mkst (st_names st) (jset fullname v (st_tbl st)).
 
+  (* _keep_null_namespace: a null-namespace type nested in a namespaced type keeps "namespace": "" *)
+  Definition keep_null_ns (fullname enclosing : string) (kv : list (string * json)) : list (string * json) :=
+    if negb (String.eqb enclosing "") && negb (has_dot fullname) then jset "namespace" (JStr "") kv else kv.
+
   Definition parse_dict (kv : list (string * json)) (ns : string) (wh : bool) (st : pstate)
              (d : option json) : pres (json * pstate) :=
     match jget "type" kv with
@@ -410,7 +444,7 @@ Section Open.
               match jget "symbols" kv with
               | None => PErrOther
               | Some syms =>
-                  let parsed := JObj (jset "symbols" syms (jset "name" (JStr fullname) base)) in
+                  let parsed := JObj (jset "symbols" syms (keep_null_ns fullname ns (jset "name" (JStr fullname) base))) in
                   POk (parsed, set_tbl fullname parsed st1)
               end
             else if String.eqb t "fixed" then
@@ -420,12 +454,13 @@ Section Open.
               match jget "size" kv with
               | None => PErrOther
               | Some sz =>
-                  let parsed := JObj (jset "size" sz (jset "name" (JStr fullname) base)) in
+                  let parsed := JObj (jset "size" sz (keep_null_ns fullname ns (jset "name" (JStr fullname) base))) in
                   POk (parsed, set_tbl fullname parsed st1)
               end
             else if String.eqb t "record" || String.eqb t "error" then
               let+ (ns', fullname) := schema_name kv ns in
               let+ st1 := declare fullname st in
+              let base := keep_null_ns fullname ns base in
               let+ _ := check_default d is_jobj in
               let st2 := set_tbl fullname (JObj base) st1 in     (* the partially built dict *)
               let+ fl := match jget "fields" kv with
@@ -440,7 +475,10 @@ Section Open.
                 POk (JObj (jset "__named_schemas" JNull (jset "__fastavro_parsed" (JBool true) reckv)), st4)
               else POk (JObj reckv, st4)
             else if is_prim t then
-              let+ _ := check_default d (fun dv => default_matches_strict dv t) in
+              let+ _ := match d with
+                        | None => POk tt
+                        | Some dv => let+ b := default_matches_prim dv (JStr t) in if b then POk tt else PErrParse
+                        end in
               POk (JObj base, st)
             else PErrUnknown "<dict>"
         | JArr _ | JObj _ => PErrOther        (* unhashable in "schema_type in PRIMITIVES" *)
@@ -455,19 +493,25 @@ Section Open.
         let+ (ps, st1) := parse_members ns l st in
         let+ _ := match d with
                   | None => POk tt
-                  | Some dv => let+ b := any_match dv ps in if b then POk tt else PErrParse
+                  | Some dv => let+ b := any_match (st_tbl st1) dv ps in if b then POk tt else PErrParse
                   end in
         POk (JArr ps, st1)
     | JStr s =>
         if is_prim s then
           let+ _ := match d with
                     | None => POk tt
-                    | Some dv => let+ b := default_matches dv (JStr s) in if b then POk tt else PErrParse
+                    | Some dv => let+ b := default_matches_prim dv (JStr s) in if b then POk tt else PErrParse
                     end in
           POk (JStr s, st)
         else
           let q := qualify ns s in
-          if jhas q (st_tbl st) then POk (JStr q, st) else PErrUnknown q
+          if jhas q (st_tbl st) then
+            let+ _ := match d with
+                      | None => POk tt
+                      | Some dv => let+ b := default_matches (st_tbl st) dv (JStr q) in if b then POk tt else PErrParse
+                      end in
+            POk (JStr q, st)
+          else PErrUnknown q
     | JObj kv => parse_dict kv ns wh st d
     | _ => PErrOther
     end.
@@ -479,25 +523,25 @@ Fixpoint parse_rec (f : nat) : recfun :=
   | S f => parse_node (parse_rec f)
   end.
 
-(** ---- parse_schema ---- *)
-Definition run_parse (f : nat) (j : json) (t : named) : pres (json * named) :=
-  let+ (p, st) := parse_rec f j "" true (mkst [] t) None in
-  POk (p, st_tbl st).
+(** ---- parse_schema ----
+    The per-call name set is shared by the members of a top-level union (parameter _names). *)
+Definition run_parse (f : nat) (j : json) (st : pstate) : pres (json * pstate) :=
+  parse_rec f j "" true st None.
 
 Section OpenTop.
-  Variable rec : json -> named -> pres (json * named).
-  (* [parse_schema(s, named_schemas, ...) for s in schema] *)
-  Fixpoint parse_tops (l : list json) (t : named) : pres (list json * named) :=
+  Variable rec : json -> pstate -> pres (json * pstate).
+  (* [parse_schema(s, named_schemas, ..., _names=names) for s in schema] *)
+  Fixpoint parse_tops (l : list json) (st : pstate) : pres (list json * pstate) :=
     match l with
-    | [] => POk ([], t)
+    | [] => POk ([], st)
     | s :: r =>
-        let+ (p, t1) := rec s t in
-        let+ (ps, t2) := parse_tops r t1 in
-        POk (p :: ps, t2)
+        let+ (p, st1) := rec s st in
+        let+ (ps, st2) := parse_tops r st1 in
+        POk (p :: ps, st2)
     end.
 End OpenTop.
 
-Fixpoint parse_schema_rec (f : nat) (j : json) (t : named) : pres (json * named) :=
+Fixpoint parse_schema_rec (f : nat) (j : json) (st : pstate) : pres (json * pstate) :=
   match f with
   | O => PFuel
   | S f =>
@@ -505,16 +549,15 @@ Fixpoint parse_schema_rec (f : nat) (j : json) (t : named) : pres (json * named)
       | JObj kv =>
           if jhas "__fastavro_parsed" kv then
             match jget "__named_schemas" kv with
-            | Some (JObj emb) => POk (j, jupdate emb t)     (* returned unchanged *)
+            | Some (JObj emb) => POk (j, mkst (st_names st) (jupdate emb (st_tbl st)))     (* returned unchanged *)
             | Some _ => PErrOther
-            | None => run_parse f j t                         (* old marker: re-parse *)
+            | None => run_parse f j st                         (* old marker: re-parse *)
             end
-          else run_parse f j t
+          else run_parse f j st
       | JArr l =>
-          (* each member by a separate parse_schema call: fresh [names] every time *)
-          let+ (ps, t1) := parse_tops (parse_schema_rec f) l t in
-          POk (JArr ps, t1)
-      | _ => run_parse f j t
+          let+ (ps, st1) := parse_tops (parse_schema_rec f) l st in
+          POk (JArr ps, st1)
+      | _ => run_parse f j st
       end
   end.
 
@@ -528,8 +571,8 @@ Definition tie (t : named) : json -> json :=
 
 (* parse_schema(schema, named_schemas): result and the dictionary afterwards *)
 Definition parse_schema (f : nat) (j : json) (t : named) : pres (json * named) :=
-  let+ (p, t1) := parse_schema_rec f j t in
-  POk (tie t1 p, t1).
+  let+ (p, st1) := parse_schema_rec f j (mkst [] t) in
+  POk (tie (st_tbl st1) p, st_tbl st1).
 
 (* enough fuel for every schema: one unit per nesting level *)
 Definition fuel_for (j : json) : nat := S (S (jdepth j)).
